@@ -350,8 +350,9 @@ pub fn scenario(name: &str, params: &Value) -> Scenario {
                 let pid = PIDS[chz.choose(if full { PIDS.len() } else { 3 })];
                 let mask = chz.choose(64);
                 let nuser = chz.choose(4);
-                let sizes = [0usize, 1, 510, 511, 512, 513, 514, 1022, 1023, 1024, 1025, 1026, 2048, 5000];
-                let psize = sizes[chz.choose(if full { sizes.len() } else { 6 })];
+                // (the last three: remaining lengths of three bytes, and of four - 2 MiB and more)
+                let sizes = [0usize, 1, 510, 511, 512, 513, 514, 16_400, 2_097_152, 1022, 1023, 1024, 1025, 1026, 2048, 5000, 70_000, 3_200_000];
+                let psize = sizes[chz.choose(if full { sizes.len() } else { 9 })];
                 let mut props = vec![Prop::var(P_SUBSCRIPTION_ID, sub_id)];
                 if mask & 1 != 0 {
                     props.push(Prop::byte(P_PAYLOAD_FORMAT, (mask >> 3) as u8 & 1));
